@@ -201,13 +201,18 @@ func txnApply(s *tikv.KVStore, o rop, tag string, step int) string {
 }
 
 func runTxnIsolated(alpha []rop, seq []int) []string {
-	s := newStore()
-	defer s.Close()
-	st, err := s.txnStore(-1)
+	w, err := getWorld("txn-iso", func(w *world) error {
+		st, err := w.st.txnStore(-1)
+		if err == nil {
+			w.txn = []*tikv.KVStore{st}
+		}
+		return err
+	})
 	if err != nil {
 		return []string{"ERR:" + err.Error()}
 	}
-	defer closeStores(st)
+	defer putWorld("txn-iso", w)
+	st := w.txn[0]
 	var out []string
 	for i, oi := range seq {
 		out = append(out, normalise(txnApply(st, alpha[oi], "#", i), "#"))
@@ -252,16 +257,22 @@ func runTxnDifferential(depth int) map[string]any {
 			}
 			replay := diffSeq{Pair: pair, Ops: ops, Txn: true}
 			refA, refB, refV := refs[i], refs[encodeSeq(seqB, n)], refs[encodeSeq(seqV, n)]
-			s := newStore()
-			defer s.Close()
-			sa, e1 := s.txnStore(int64(pair[0]))
-			sb, e2 := s.txnStore(int64(pair[1]))
-			sv, e3 := s.txnStore(-1)
-			if e1 != nil || e2 != nil || e3 != nil {
-				viol("difftxn:setup", fmt.Sprintf("cannot build stores: %v %v %v", e1, e2, e3), replay)
+			w, err := getWorld("txn-shared", func(w *world) error {
+				for _, ks := range []int64{int64(pair[0]), int64(pair[1]), -1} {
+					st, err := w.st.txnStore(ks)
+					if err != nil {
+						return err
+					}
+					w.txn = append(w.txn, st)
+				}
+				return nil
+			})
+			if err != nil {
+				viol("difftxn:setup", fmt.Sprintf("cannot build stores: %v", err), replay)
 				return
 			}
-			defer closeStores(sa, sb, sv)
+			defer putWorld("txn-shared", w)
+			sa, sb, sv := w.txn[0], w.txn[1], w.txn[2]
 			check := func(who, tag, got, want string, o rop) {
 				nEvals.Add(1)
 				distinctRes.Store(normalise(got, tag), true)
